@@ -141,3 +141,18 @@ impl<'a> ParseContext<'a> {
             .insert(CacheKey::new(loc_key, matcher_key), match_result);
     }
 }
+
+#[cfg(sqruff_verif)]
+impl ParseContext<'_> {
+    /// (number of interned match locations, number of memo entries)
+    pub fn verif_table_sizes(&self) -> (usize, usize) {
+        (self.loc_keys.len(), self.parse_cache.len())
+    }
+
+    /// the data interned under a location key: (raw, working location, token type, slice length)
+    pub fn verif_loc_data(&self, key: u32) -> Option<(SmolStr, (usize, usize), SyntaxKind, u64)> {
+        self.loc_keys
+            .get_index(key as usize)
+            .map(|d| (d.0.clone(), d.1, d.2, d.3 as u64))
+    }
+}
